@@ -120,6 +120,22 @@ def sumtype(F, rep):
             side = cs.name
             ty_arg = T.operand(cs.args[1] if side == "left" else cs.args[0])
             # payload of a matched continuation: ('field', ('as', popped, V), '0')
+            from facts import calls_in as _ci
+            works_by_stack = any(c.name == "pop" and f.in_loop(c.bb) for c in f.calls())
+            val_arg = T.operand(cs.args[0] if side == "left" else cs.args[1])
+            if works_by_stack and isinstance(ty_arg, tuple) and ty_arg[0] == "field" and isinstance(ty_arg[1], tuple) and ty_arg[1][0] == "as" \
+                    and ty_arg[1][2] in ("Sum", "Product"):
+                # an injection built right where the sum type is taken apart: in an iterative algorithm its payload cannot
+                # have been processed yet (the processed payload only exists on the result stack, after its sub-task ran)
+                rep.violation("C10.sumtype", "%s:%s:direct" % (f.name, side), "%s builds Value::%s(%s, ..) directly in the arm that takes the sum type apart: "
+                              "the payload is the input's own component, not the result of its sub-task, so whatever the loop does to components "
+                              "(pruning, decoding) is skipped for it" % (f.path, side, _brief(val_arg)), cs.where())
+                continue
+            if works_by_stack and isinstance(ty_arg, tuple) and ty_arg[0] == "field" and isinstance(ty_arg[1], tuple) and ty_arg[1][0] == "as" \
+                    and not any(c[2] == "pop" for c in _ci(val_arg)):
+                rep.violation("C10.sumtype", "%s:%s:payload" % (f.name, side), "%s: the payload of Value::%s under continuation %s is %s, not a popped result"
+                              % (f.path, side, ty_arg[1][2], _brief(val_arg)), cs.where())
+                continue
             if isinstance(ty_arg, tuple) and ty_arg[0] == "field" and isinstance(ty_arg[1], tuple) and ty_arg[1][0] == "as":
                 conts[ty_arg[1][2]] = side
                 n_sites += 1
